@@ -132,6 +132,8 @@ def one_case(rec, tap, rng, cid):
                       case)
         res[kk] = ("ok", idnt, copy.deepcopy(dict(fp)))
     rec.evaluated(dg=(spec, k, kw), nontrivial=k != 1)
+    if mode in ("full", "interval") and rng.random() < .25:
+        direct_fitter(rec, spec, full, mk, p_exp, k, kw, cp_user, e0, case)
     a, b = res[k], res[1.0]
     if a[0] != b[0] or a[0] == "exc":
         rec.check(a[0] == b[0], "outcome-differs",
@@ -278,6 +280,46 @@ def one_case(rec, tap, rng, cid):
     rec.sample({"model": mk, "k": k, "mode": mode, "snr": spec["snr"],
                 "E_k": pa["E"].value, "E_1": pb["E"].value,
                 "E_k*k^p/E_1-1": de}, limit=4)
+
+
+def direct_fitter(rec, spec, full, mk, p_exp, k, kw, cp_user, e0, case):
+    """the fitter's documented keyword interface, on a curve that was fitted
+    before with k = 1: IndentationFitter(idnt, gcf_k=k, ...).fit()"""
+    from nanite.fit import IndentationFitter
+    out = {}
+    for kk in (k, 1.0):
+        idnt, truth = fitlab.build_curve(spec)
+        p1 = gen.nanite_params(mk, dict(full))
+        p1["E"].value = e0
+        p1["contact_point"].value = cp_user
+        p1["baseline"].value = 0.0
+        try:
+            idnt.fit_model(params_initial=copy.deepcopy(p1), gcf_k=1.0,
+                           **copy.deepcopy(kw))
+            pk = copy.deepcopy(p1)
+            pk["E"].value = e0 * kk ** (-p_exp)
+            f = IndentationFitter(idnt, gcf_k=kk, params_initial=pk,
+                                  **copy.deepcopy(kw))
+            f.fit()
+        except BaseException as e:  # noqa
+            rec.event("direct fitter interface raised " + type(e).__name__)
+            return
+        if not f.fp.get("success"):
+            return
+        out[kk] = f.fp
+    rec.event("twins through the fitter's keyword interface")
+    rec.evaluated(dg=(spec, k, kw, "direct-fitter"))
+    pa, pb = out[k]["params_fitted"], out[1.0]["params_fitted"]
+    de = abs(pa["E"].value * k ** p_exp / pb["E"].value - 1)
+    dcp = abs(pa["contact_point"].value - pb["contact_point"].value) \
+        / truth["travel"]
+    rec.check(out[k].get("gcf_k") == k, "direct-fitter/gcf_k-not-the-keyword",
+              "IndentationFitter(idnt, gcf_k=%r) reports gcf_k=%r"
+              % (k, out[k].get("gcf_k")), case)
+    rec.check(de <= 1e-2 and dcp <= 1e-2, "direct-fitter/modulus-not-k^-p",
+              "IndentationFitter(idnt, gcf_k=%r) on a curve fitted before "
+              "with k=1: E_k k^p / E_1 - 1 = %.3e, contact point differs by "
+              "%.3e of the travel" % (k, de, dcp), case)
 
 
 def run_shard(rec, tier, seed, shard, nshards):
